@@ -93,7 +93,8 @@ def _gen_consts(repo):
 # ---------------------------------------------------------------------------
 # vocabulary
 
-PLAIN = ["GPL-2+", "This program is free software;", "you can redistribute it", "  indented text",
+PLAIN = ["Conditions: ", "Note:", "ends with colon-space: ", "a: b: ", ": ", "key:\tvalue",
+         "GPL-2+", "This program is free software;", "you can redistribute it", "  indented text",
          "\tTabbed", "Ünïcödé © 2014 Müller", "日本語 text", "trailing ", "a b  c", "x\xa0y", "..", ". .", ".x",
          " . ", "#hash", "Key: value", ":", "-----BEGIN PGP SIGNATURE-----", "2014 Foo <foo@example.org>"]
 EDGE = ["", "", "", " ", "  ", "\t", ".", " .", ". ", "\xa0", "　 ", "with\x0cformfeed", "cr\rin", "cr\r",
@@ -151,6 +152,9 @@ SYNOPSES = ["GPL-2+", "MIT", "GPL-2+ or Artistic-1.0", "Apache-2.0 with exceptio
             " lead", "trail ", "with\nLF", "x\x0cy", "a\x85", "."]
 SS_ITEMS = ["*", "src/*", "src/*.c", "debian/rules", "debian/*", "a?b", "é/ü*", "doc/\\*", "x", ".", "#",
             "", " ", "a b", "a\tb", " a", "a ", "a\nb", "a\xa0b", "　", "x\x1cy", "a\x85b"]
+LONG_ITEMS = ["vendor/some-other-project/include/*.h", "third-party/lib-foo-bar/src/*", "debian/patches/0001-fix-build.patch",
+              "a-b-c-d-e-f-g-h", "docs/user-guide/chapter-*.rst", "x" * 30 + "-" + "y" * 30, "tools/gen-all.sh", "*-config.cmake.in",
+              "share/locale/*/LC_MESSAGES/pkg-name.mo", "-", "--", "a-", "-b"]
 SS_SEPS = [" ", " ", "  ", "\t", "\n", "\n ", "\xa0", "\x1f", "\x0c", " "]
 LB_ITEMS = ["Name <a@b.c>", "John Doe", "Jörg Ü <j@x.org>", "https://example.org/", "x", ".",
             " lead", "trail ", "\ttab", "", "  ", "a\nb", "a\x0cb", "x\x85y", "a  b", "\xa0n", "a\r"]
@@ -231,6 +235,9 @@ def _files_spec(rng, clean):
     else:
         items = SS_ITEMS if bad else SS_ITEMS[:11]
         files = {"l": [rng.choice(items) for _ in range(rng.choice([1, 1, 2, 3]))]}
+        if rng.random() < 0.12:
+            # a long list (well over 80 columns when joined) of long patterns with hyphens, dots and slashes
+            files = {"l": [rng.choice(LONG_ITEMS) for _ in range(rng.randint(3, 9))]}
     cop = None if (bad and rng.random() < 0.1) else {"s": _freetext(rng, 0.4 if bad else 0.0)}
     lic = None if (bad and rng.random() < 0.1) else _lic(rng, 0.4 if bad else 0.0, lossy=(clean == "lossy"))
     cm = {"s": _freetext(rng, 0.3 if bad else 0.0)} if rng.random() < 0.2 else None
@@ -321,6 +328,8 @@ def _codec_case(rng):
         return {"kind": k, "s": None if rng.random() < 0.05 else _encoded(rng)}
     if k == "ss":
         items = SS_ITEMS[:11] if rng.random() < 0.6 else SS_ITEMS
+        if rng.random() < 0.15:
+            return {"kind": k, "l": [rng.choice(LONG_ITEMS) for _ in range(rng.randint(3, 12))]}
         return {"kind": k, "l": [rng.choice(items) for _ in range(rng.choice([0, 1, 1, 2, 3, 4]))]}
     if k == "ssfrom":
         if rng.random() < 0.05:
